@@ -299,6 +299,48 @@ func (m *c03Impl) dump() string {
 	return sb.String()
 }
 
+// mpCheck is the model-independent oracle for the equal-cost multipath set: it must be the best
+// path followed by the longest run of paths that are reachable, as LLGR-stale as the best path
+// and equal to it under Path.Compare - a prefix of the list with no worse path inside and no
+// qualifying path right behind it.
+func (m *c03Impl) mpCheck(o *vOut, cands []*c03Cand, how string) {
+	list := m.dest.knownPathList
+	want := 0
+	if len(list) > 0 && !list[0].IsNexthopInvalid {
+		best := list[0]
+		want = 1
+		for want < len(list) && !list[want].IsNexthopInvalid && list[want].IsLLGRStale() == best.IsLLGRStale() && list[want].Compare(best) == 0 {
+			want++
+		}
+	}
+	got := getMultiBestPath(GLOBAL_RIB_NAME, list)
+	ok := len(got) == want
+	for i := 0; ok && i < want; i++ {
+		ok = got[i] == list[i]
+	}
+	if want > 1 {
+		o.stat("multipath_sets_gt1", 1)
+	}
+	if ok {
+		return
+	}
+	lines := []string{}
+	for _, c := range cands {
+		lines = append(lines, c.line())
+	}
+	worse := "stale-or-unreachable-inside"
+	for i := 1; i < len(got) && i < len(list); i++ {
+		if got[i].Compare(list[0]) != 0 {
+			worse = "worse-path-inside"
+		}
+	}
+	if len(got) < want {
+		worse = "equal-cost-path-left-out"
+	}
+	o.fail("multipath-not-equal-cost-run:"+worse, map[string]any{"opts": fmt.Sprintf("%+v", SelectionOptions), "cands": lines,
+		"how": how, "list_and_multipath": m.dump(), "expected_multipath_len": want})
+}
+
 // c03Comparable re-states the property's precondition on the real paths: MED comparable across
 // all pairs, ORIGIN present, sources pairwise distinct.
 func c03Comparable(cs []*c03Cand) bool {
@@ -528,6 +570,7 @@ func TestVerifC03(t *testing.T) {
 			}
 			d := m.dump()
 			o.ask(d, "dump")
+			m.mpCheck(o, cands, fmt.Sprintf("arrival order %v", p))
 			if comparable && len(m.dest.knownPathList) > 0 {
 				// the best path must be minimal for the documented key
 				var best *c03Cand
@@ -590,6 +633,7 @@ func TestVerifC03(t *testing.T) {
 				o.op("ann %d", c.id)
 			}
 			o.ask(m.dump(), "dump")
+			m.mpCheck(o, cands, "history with replacements and withdrawals")
 		}
 		o.stat("sets", 1)
 	}
